@@ -215,10 +215,23 @@ def binder_records(repo):
                                                            'not bound in its own scope'))
                 # global route: on the path where this identifier is declared global
                 for ps in s.paths:
-                    if ps.raised is None and any(tag[0] == 'in' and tag[1] == binder['ident'] and v
-                                                 for tag, v in ps.decisions):
+                    if ps.raised is None and any(tag[0] == 'in' and tag[1] == binder['ident'] and v and
+                                                 str(tag[2]).endswith('.globals') for tag, v in ps.decisions):
                         if binder['ident'] not in ps.top_state['global_names']:
                             rec['global_route'].append(s.variant)
+                        break
+                # nonlocal route: on the path where this identifier is declared nonlocal it must not become a local of the
+                # declaring scope (it would mask the owner's binding for every read in this scope)
+                for ps in s.paths:
+                    if ps.raised is None and any(tag[0] == 'in' and tag[1] == binder['ident'] and v and
+                                                 'nonlocal' in str(tag[2]) for tag, v in ps.decisions):
+                        rec['nonlocal_paths'] = rec.get('nonlocal_paths', 0) + 1
+                        for e in ps.effects:
+                            if e[0] in ('symset_add', 'symset_update') and str(e[1]).endswith('.locals') and \
+                                    binder['ident'] in [str(x) for x in e[2]]:
+                                rec.setdefault('nonlocal_route', []).append(s.variant)
+                        if binder['ident'] in ps.top_state['global_names']:
+                            rec.setdefault('nonlocal_route', []).append(s.variant)
                         break
     return recs
 
